@@ -232,3 +232,19 @@ func (Dormant) OnFunEntry(*lisp.LEnv, *lisp.LVal, *lisp.LEnv)     {}
 func (Dormant) OnFunReturn(*lisp.LEnv, *lisp.LVal, *lisp.LVal)    {}
 func (Dormant) OnError(*lisp.LEnv, *lisp.LVal) bool              { return false }
 func (Dormant) AfterFunCall(*lisp.LEnv) bool                     { return false }
+
+// HostFn is a host builtin definition (lisp.LBuiltinDef).
+type HostFn struct {
+	N  string
+	F  *lisp.LVal
+	Fn func(env *lisp.LEnv, args *lisp.LVal) *lisp.LVal
+}
+
+func (h HostFn) Name() string                              { return h.N }
+func (h HostFn) Formals() *lisp.LVal                       { return h.F }
+func (h HostFn) Eval(env *lisp.LEnv, a *lisp.LVal) *lisp.LVal { return h.Fn(env, a) }
+
+// Fn builds a host builtin.
+func Fn(name string, formals []string, fn func(env *lisp.LEnv, args *lisp.LVal) *lisp.LVal) lisp.LBuiltinDef {
+	return HostFn{N: name, F: lisp.Formals(formals...), Fn: fn}
+}
